@@ -540,8 +540,8 @@ def main(argv):
     sel.sort(key=lambda h: -h.get("timeout", 300))
 
     set_features([h.get("feature") for h in sel])
-    # goto-instrument needs 8-22 GB for the largest generated harnesses (measured): 8 at a time keeps the peak under this machine's 62 GB
-    jobs = int(os.environ.get("VERIF_JOBS", "0") or 0) or min(8, max(1, (os.cpu_count() or 4) - 2))
+    # goto-instrument needs 8-22 GB for the largest generated harnesses (measured): 6 at a time keeps the peak well under this machine's 62 GB
+    jobs = int(os.environ.get("VERIF_JOBS", "0") or 0) or min(6, max(1, (os.cpu_count() or 4) - 2))
     log("%d harnesses for %s/%s (features: %s)" % (len(sel), pid, tier, ",".join(FEATURES) or "-"))
     results = run_all(sel, jobs)
     if results is None:
